@@ -14,6 +14,7 @@ import (
 	"encoding/binary"
 	"errors"
 	"hash/crc32"
+	"math"
 	"time"
 )
 
@@ -56,6 +57,7 @@ var (
 	ErrCorruptedBlock    = errors.New("block checksum mismatch")
 	ErrCorruptedEntry    = errors.New("entry data corrupted")
 	ErrEmptyKey          = errors.New("entry key cannot be empty")
+	ErrEntryTooLarge     = errors.New("entry key or data too large for the file format")
 	ErrFileClosed        = errors.New("file is closed")
 	ErrCompactionRunning = errors.New("compaction is already running")
 )
@@ -289,6 +291,18 @@ func (e *Entry) Deserialize(buf []byte) (int, error) {
 	offset += dataLen
 
 	return offset, nil
+}
+
+// Validate reports whether the entry can be stored faithfully: the format has a 16-bit key
+// length and a 32-bit data length, and the reader rejects empty keys.
+func (e *Entry) Validate() error {
+	if e.Key == "" {
+		return ErrEmptyKey
+	}
+	if len(e.Key) > math.MaxUint16 || uint64(len(e.Data)) > math.MaxUint32 {
+		return ErrEntryTooLarge
+	}
+	return nil
 }
 
 // Size returns the serialized size of the entry
